@@ -11,6 +11,8 @@ from mirsym.engine import NONE, SOME
 ID = 'C33'
 CRATES = ['jj-lib']
 NATIVE = 'c33'
+NATIVE_CONFIRM = False     # to_git_ref_name is private: only parse_git_ref can be run natively (path witnesses are validated against it);
+                           # counterexamples involving the export direction are reported on the solver's verdict over the real MIR
 BOUNDS = {
     'quick': 'export->parse: kind in {Bookmark, Tag}, name 0..5 bytes, remote 0..4 bytes (every ASCII byte value, remote without "/"); import->export: every valid ASCII ref name of 0..19 bytes; remote-tag namespace: name 1..3, remote 1..4',
     'thorough': 'export->parse: name 0..7, remote 0..5; import->export: ref names 0..24 bytes; remote-tag namespace: name 1..5, remote 1..5',
